@@ -11,7 +11,7 @@ import auditok.workers as W
 from auditok.io import BufferAudioSource
 from auditok.util import AudioReader
 
-from .core import DONE, SchedAbort, SchedEvent, SchedQueue, Scheduler
+from .core import DONE, SchedAbort, SchedCondition, SchedEvent, SchedLock, SchedQueue, SchedRLock, Scheduler
 
 _install_lock = threading.Lock()
 
@@ -193,19 +193,45 @@ class Installed:
             def __getattr__(self, name):
                 return getattr(self.__dict__["_vf_real"], name)
 
-        for name, val in list(vars(W).items()):
-            if isinstance(val, type) and val in fifo:
-                self.saved_globals[name] = val
-                setattr(W, name, SchedQueue)
-            elif val is threading.Event:
-                self.saved_globals[name] = val
-                setattr(W, name, SchedEvent)
-            elif val is _q:
-                self.saved_globals[name] = val
-                setattr(W, name, _Shim(_q, Queue=SchedQueue, SimpleQueue=SchedQueue))
-            elif val is threading:
-                self.saved_globals[name] = val
-                setattr(W, name, _Shim(threading, Event=SchedEvent))
+        import auditok.core
+        import auditok.io
+        import auditok.signal
+        import auditok.util
+
+        lock_t, rlock_t = type(threading.Lock()), type(threading.RLock())
+        self.saved_module_globals = []
+
+        def put(mod, name, new):
+            self.saved_module_globals.append((mod, name, getattr(mod, name)))
+            setattr(mod, name, new)
+
+        for mod in (W, auditok.core, auditok.util, auditok.io, auditok.signal):
+            for name, val in list(vars(mod).items()):
+                try:
+                    if mod is W and isinstance(val, type) and val in fifo:
+                        put(mod, name, SchedQueue)
+                    elif mod is W and val is threading.Event:
+                        put(mod, name, SchedEvent)
+                    elif mod is W and val is _q:
+                        put(mod, name, _Shim(_q, Queue=SchedQueue, SimpleQueue=SchedQueue))
+                    elif val is threading:
+                        # Event only in workers.py (a stop flag); locks everywhere (a locked cache, a rate-limited log line)
+                        over = dict(Lock=SchedLock, RLock=SchedRLock, Condition=SchedCondition)
+                        if mod is W:
+                            over["Event"] = SchedEvent
+                        put(mod, name, _Shim(threading, **over))
+                    elif val is threading.Lock:
+                        put(mod, name, SchedLock)
+                    elif val is threading.RLock:
+                        put(mod, name, SchedRLock)
+                    elif val is threading.Condition:
+                        put(mod, name, SchedCondition)
+                    elif isinstance(val, lock_t):
+                        put(mod, name, SchedLock())  # a module-level lock object created at import time
+                    elif isinstance(val, rlock_t):
+                        put(mod, name, SchedRLock())
+                except TypeError:
+                    continue
 
     def _install_lines(self):
         mon = sys.monitoring
@@ -273,8 +299,8 @@ class Installed:
                     mon.set_local_events(self.tool, c, 0)
                 mon.register_callback(self.tool, self.event, None)
                 mon.free_tool_id(self.tool)
-            for name, orig in self.saved_globals.items():
-                setattr(W, name, orig)
+            for mod, name, orig in reversed(getattr(self, "saved_module_globals", [])):
+                setattr(mod, name, orig)
             for attr, orig in (("start", self.orig_start), ("join", self.orig_join)):
                 if orig is None:
                     try:
